@@ -58,6 +58,12 @@ impl Prop for C11 {
     }
     fn sample(&self, c: &AnyCase) -> Value { c.sample() }
     fn simplify(&self, c: &AnyCase) -> Vec<AnyCase> { c.simplify() }
+    fn fixed_cases(&self, tier: Tier) -> Vec<AnyCase> {
+        // a Huffman tree with 16-level (32-bit) code words must round-trip too
+        crate::props::seqexact::deep_code_cases("C02", tier).into_iter().take(1)
+            .chain(crate::props::seqexact::deep_code_cases("C03", tier))
+            .map(AnyCase::Seq).collect()
+    }
     fn run(&self, c: &AnyCase, ctx: &mut Ctx) -> CheckResult {
         let v = c.build();
         let who = c.type_name();
